@@ -163,6 +163,13 @@ def gen_cases(seeds, tier, rng):
     seeds = [x for x in seeds if not x['big']]
     for s in seeds:
         d, hs, tag = s['data'], s['hs'], s['name']
+        for cut in list(range(0, hs + 1)) + [hs + 1, hs + 3, len(d) - 1]:
+            full.append(dict(kind='trunc', name='%s:trunc@%d' % (tag, cut), data=d[:cut]))
+        for off in range(0, hs, 4):
+            for v in DICT4:
+                full.append(dict(kind='w4', name='%s:w4@%d=%x' % (tag, off, v), data=d[:off] + v.to_bytes(4, 'big') + d[off + 4:]))
+            for v in DICT8:
+                full.append(dict(kind='w8', name='%s:w8@%d=%x' % (tag, off, v), data=d[:off] + v.to_bytes(8, 'big') + d[off + 8:]))
     if tier == 'quick':         # all truncation points of one format (the others every 3rd), a seeded third of the substitutions
         f0 = seeds[rng.below(len(seeds))]['name']
         cases = [c for c in full if c['kind'] == 'trunc' and (c['name'].startswith(f0) or rng.chance(1, 3))]
@@ -561,13 +568,14 @@ def witnesses(V, tree_p, tree_a, wd, api_asan, open_p, open_a, drv, tier):
     record('F19', 'api:fill_var_rec-invalid-varid-indexes-out-of-bounds', bool(kind) or rc != 0,
            'ncmpi_fill_var_rec(ncid, 99, 0) with one variable defined: rc=%s %s@%s' % (rc, kind, site), dict(script=text))
     # WAITBOGUS: a wait that is refused because of an unknown id, then wait_all
-    text = ('1 * create wb.nc 1 clobber -\n2 * def_dim x 5\n3 * def_var v double 1 x\n4 * enddef\n5 * attach 65536\n'
-            '6 * bput q1 vara v int c 4 1 - - : 22\n7 * bput q2 vara v uchar c 3 2 - - : 59 86\n8 * wait c 3 q2 BOGUS NULL\n'
-            '9 * waitall c ALL\n10 * detach\n11 * close\n')
+    text = ('1 * create wb.nc 5 clobber -\n2 * def_dim d0 5\n3 * def_var v0 double 1 d0\n4 * def_var v2 int64 0\n5 * enddef\n6 * attach 65536\n'
+            '7 * bput q2 vara v0 int c 4 1 - - : 22\n8 * bput q3 vara v0 uchar t 3 2 - - : 59 86\n9 * wait c 3 q3 BOGUS NULL\n'
+            '10 * iput q4 var v2 uint c - - - - : 71\n11 * wait c 2 q2 NULL\n12 * waitall c ALL\n')
     rc, lines, err = run_script_asan(api_asan, text, 1, wd, 'wb')
     kind, site = report_sig(err)
     record('WAITBOGUS', 'api:wait-refused-for-unknown-id-then-wait-use-after-free', bool(kind) or rc != 0,
-           'two bput, ncmpi_wait_all(3, {q2, never-issued id, NC_REQ_NULL}) = refused, then ncmpi_wait_all(NC_REQ_ALL): rc=%s %s@%s' % (rc, kind, site), dict(script=text))
+           'bput q2, bput q3, ncmpi_wait_all(3, {q3, never-issued id, NC_REQ_NULL}) = NC_EINVAL_REQUEST, iput q4, ncmpi_wait_all(2, {q2, NC_REQ_NULL}), '
+           'ncmpi_wait_all(NC_REQ_ALL): rc=%s %s@%s' % (rc, kind, site), dict(script=text))
     # N2: hash size 0
     text = '1 * create n2.nc 1 clobber nc_hash_size_dim=0\n2 * def_dim x 10\n3 * def_dim y 10\n4 * enddef\n5 * close\n'
     rc, lines, err = run_script_asan(api_asan, text, 1, wd, 'n2')
@@ -725,8 +733,12 @@ def run_check(tier, seed):
                         tie.append(dict(case=cases[i]['name'], what='2-rank result differs from 1-rank result', rank=rk, two=ra[:300], one=rb[:300]))
             log('[S4a] 2-rank opens: %d results in %.1fs' % (n2, t1.s()))
         # ---- model-level self check of the instrumented window (the theorem window_safe, evaluated)
-        tsample = [cases[i] for i in small[::max(1, len(small) // (60 if tier == 'quick' else 400))]]
-        tl = lean_batch(drv, ['TRACE %d %s' % (ch, c['data'].hex() or '-') for c in tsample for ch in (36, 52, 4096)])
+        # (multi-chunk headers only with a large chunk: the list-based model pays O(file) per fetch)
+        sm = [i for i in small if len(cases[i]['data']) < 5000]
+        tsample = [cases[i] for i in sm[::max(1, len(sm) // (60 if tier == 'quick' else 400))]]
+        treq = ['TRACE %d %s' % (ch, c['data'].hex() or '-') for c in tsample for ch in (36, 52, 4096)]
+        treq += ['TRACE 100000 %s' % cases[i]['data'].hex() for i in small if cases[i]['kind'] == 'bighdr'][:4]
+        tl = lean_batch(drv, treq)
         unsafe = [l for l in tl if len(l.split()) != 5 or l.split()[1] != '0' or l.split()[2] != 'false']
         if unsafe:
             tie.append(dict(what='instrumented window run reports an unsafe access or a stuck copy loop (contradicts theorem window_safe)', lines=unsafe[:5]))
